@@ -1471,12 +1471,12 @@ MUTANTS = [
                    "            pass"), None),
     Mutant('decimal-length-guard-short', 'R8', 'fire', _N,
            in_func('Decimal._s_customize',
-                   "cls.Attributes.total_digits + 3",
-                   "cls.Attributes.total_digits + 2"), 'max_str_len'),
+                   "kwargs['max_str_len'] = td + 3",
+                   "kwargs['max_str_len'] = td + 2"), 'max_str_len'),
     Mutant('decimal-length-guard-own-digits', 'R8', 'benign', _N,
            in_func('Decimal._s_customize',
-                   "cls.Attributes.total_digits + 3",
-                   "cls.Attributes.total_digits + 4"), None),
+                   "kwargs['max_str_len'] = td + 3",
+                   "kwargs['max_str_len'] = td + 4"), None),
     Mutant('element-native-unvalidated', 'R1', 'fire', _X,
            in_func('XmlDocument.base_from_element',
                    r"        if self\.validator is self\.SOFT_VALIDATION and "
